@@ -265,9 +265,21 @@ class CWLEmptyScatterConditionalStep(CWLBaseConditionalStep):
     async def _on_false(self, inputs: MutableMapping[str, Token]) -> None:
         # Get empty scatter return value
         if self.scatter_method == "nested_crossproduct":
-            token_value = [
-                ListToken(value=[], tag=get_tag(inputs.values())) for _ in inputs
-            ]
+            # The empty result keeps the shape of the cross product, in scatter order:
+            # one (empty) inner list per element of each array preceding the first empty one
+            tag = get_tag(inputs.values())
+            token_value = []
+            for name in reversed(list(self.input_ports)):
+                size = (
+                    len(inputs[name].value)
+                    if isinstance(inputs[name], ListToken)
+                    else 0
+                )
+                token_value = (
+                    [ListToken(value=token_value, tag=tag) for _ in range(size)]
+                    if size > 0
+                    else []
+                )
         else:
             token_value = []
         # Propagate skip tokens
